@@ -106,20 +106,42 @@ func (vm *verifMachine) assertRegs(r *refCPU) {
 // all register/flag/operand/memory values symbolic, from every state in which no dispatch is due
 // (master enable clear, or nothing both enabled and requested).
 func VerifInstr() {
-	verifInstr(false)
+	verifInstr(false, false)
+}
+
+// VerifInstrAfter: the same, but the scheduler still holds what the previous instruction left behind, chosen as the
+// one leftover a decode cache could confuse with this instruction: the same opcode byte under the other prefix.
+// (VerifInstr starts from the empty scheduler of a fresh CPU.) An instruction must not depend on its predecessor.
+func VerifInstrAfter() {
+	verifInstr(false, true)
 }
 
 // VerifInstrHaltBug: the same with the halt-bug latch set, as HALT leaves it when it is executed with the
 // master enable clear and a request pending (C05): the opcode byte is executed without PC advancing.
 func VerifInstrHaltBug() {
-	verifInstr(true)
+	verifInstr(true, false)
 }
 
-func verifInstr(haltbug bool) {
+func verifInstr(haltbug bool, after bool) {
 	op := uint8(vCfg("op"))
 	cb := vCfg("cb") != 0
 	vm := newVerifMachine()
 	vm.havocAtBoundary()
+	if after {
+		c := vm.c
+		c.currentInstruction = op
+		if cb {
+			c.currentSubinstructions = c.normal[op]
+			c.currentIsFinishedEarly = c.isFinishedEarlys[op]
+		} else {
+			c.currentSubinstructions = c.prefix[op]
+			c.currentIsFinishedEarly = nil
+		}
+		c.currentCycle = len(c.currentSubinstructions)
+		if c.currentIsFinishedEarly != nil {
+			vAssume(c.isFinished())
+		}
+	}
 	pending := vm.intr.ReadIE()&vm.intr.ReadIF()&0x1f != 0
 	vAssume(!(vm.imeAtBoundary() && pending))
 	if haltbug {
